@@ -443,7 +443,73 @@ func idsSx(ids []int) sx {
 	return out
 }
 
+// offsetWriter records the file offset at which every Write call begins
+type offsetWriter struct {
+	buf    bytes.Buffer
+	starts []int
+}
+
+func (w *offsetWriter) Write(p []byte) (int, error) {
+	w.starts = append(w.starts, w.buf.Len())
+	return w.buf.Write(p)
+}
+
+// execBigCut: (big-cut codec size nrec): a file whose first block holds nrec records and `size` payload bytes (more than the
+// reader's 1 MiB chunk) followed by a one-record block, truncated at payloadStart + k*2^20 + {-1,0,1}, at both ends of the
+// payload and inside the second block. Outcome (cuts (c pos delivered err)...) with the block layout (layout b0 p0 e0 end).
+func execBigCut(a []sx) sx {
+	codec, size, nrec := a[0].atom, int(a[1].int()), int(a[2].int())
+	w := &offsetWriter{}
+	e, err := avro.NewEncoderFor[recB](w, avro.Compression(codec), 1<<30)
+	if err != nil {
+		return T("writeerr", A(clean(err.Error())))
+	}
+	for i := 0; i < nrec; i++ {
+		n := size / nrec
+		b := make([]byte, n)
+		rand.New(rand.NewSource(int64(size + i))).Read(b) // incompressible: the stored payload stays above the chunk size under every codec
+		if err := e.Encode(&recB{B: b}); err != nil {
+			return T("writeerr", A(clean(err.Error())))
+		}
+	}
+	if err := e.Flush(); err != nil {
+		return T("writeerr", A(clean(err.Error())))
+	}
+	e.Encode(&recB{B: []byte("tail")})
+	e.Flush()
+	file := w.buf.Bytes()
+	if len(w.starts) != 9 {
+		return T("writeerr", A(fmt.Sprintf("unexpected-write-count-%d", len(w.starts))))
+	}
+	// writes: header | count len payload sync | count len payload sync
+	b0, p0, e0 := w.starts[1], w.starts[3], w.starts[5]
+	var cuts []int
+	for k := 1; p0+k<<20 <= w.starts[4]+1; k++ {
+		for d := -1; d <= 1; d++ {
+			cuts = append(cuts, p0+k<<20+d)
+		}
+	}
+	cuts = append(cuts, b0, b0+1, p0-1, p0, p0+1, w.starts[4]-1, w.starts[4], w.starts[4]+15, e0-1, e0, e0+1, len(file)-17, len(file)-1, len(file))
+	out := T("cuts")
+	for _, c := range cuts {
+		if c < 0 || c > len(file) {
+			continue
+		}
+		got := 0
+		rerr := avro.ReadFile(bufio.NewReader(bytes.NewReader(file[:c])), &recB{}, func(val unsafe.Pointer, rb *avro.ResourceBank) error {
+			got++
+			rb.Close()
+			return nil
+		})
+		out.list = append(out.list, T("c", I(int64(c)), I(int64(got)), boolSx(rerr != nil)))
+	}
+	return T("bigcut", T("layout", I(int64(b0)), I(int64(p0)), I(int64(w.starts[4])), I(int64(e0)), I(int64(w.starts[8])), I(int64(len(file)))), out)
+}
+
 func execFile(op string, a []sx) sx {
+	if op == "big-cut" {
+		return execBigCut(a)
+	}
 	if op != "file" {
 		panic("harness: unknown file op " + op)
 	}
@@ -1093,6 +1159,15 @@ func genC08(c *ctx) {
 			}
 		}
 		emitCuts(g)
+	}
+	// a block larger than the reader's 1 MiB chunk, cut at the chunk boundaries inside its payload
+	for i, codec := range fileCodecs {
+		c.emit(T("big-cut", A(codec), I(int64(2<<20+4096+i)), I(3)))
+	}
+	if c.thorough {
+		for _, codec := range fileCodecs {
+			c.emit(T("big-cut", A(codec), I(int64(4<<20+77)), I(1)))
+		}
 	}
 	if c.thorough {
 		// a few large files (beyond the 4096-byte buffer of bufio.Reader, up to 64 kB)
